@@ -33,6 +33,10 @@ pub struct StoreCtx {
     pub oracle: Vec<String>,
     pub last_idx: u16,
     pub stores_checked: u64,
+    /// the per-store validation is off for the rest of the case (a deliberately malformed submission
+    /// — an empty buffer on the indirect path — is accepted with a zero-length element, which the
+    /// reference device, like QEMU, does not parse; the case ends with that step)
+    pub suspended: bool,
 }
 
 thread_local! {
@@ -57,6 +61,7 @@ impl StoreCtx {
             oracle: vec![],
             last_idx: 0,
             stores_checked: 0,
+            suspended: false,
         }
     }
     pub fn resync(&mut self) {
@@ -108,6 +113,9 @@ impl StoreCtx {
     /// available index the device can read right now is complete, in-flight chains are intact,
     /// the index only ever advances by one.
     fn check_complete(&mut self) {
+        if self.suspended {
+            return;
+        }
         self.stores_checked += 1;
         let idx = match self.dev.avail_idx() {
             Ok(v) => v,
@@ -304,6 +312,13 @@ impl<const N: usize> Live<N> {
         let op = format!("queue add in={} out={}{}", fmt(&ins, &self.bufs), fmt(&outs, &self.bufs), if self.hostile { " nost=1" } else { "" });
         let has_empty_buf = in_lens.iter().chain(out_lens.iter()).any(|l| *l == 0);
         hal::with(|h| h.allow_empty = has_empty_buf);
+        if has_empty_buf {
+            STORE.with(|s| {
+                if let Some(ctx) = s.borrow_mut().as_mut() {
+                    ctx.suspended = true;
+                }
+            });
+        }
         let st_before = self.q.verif_state();
         let (_, _, avail_before, _) = st_before;
         let free_before = self.q.available_desc();
@@ -1057,6 +1072,10 @@ pub fn soak<const N: usize>(l: &mut Live<N>, c: &mut Case, k: usize) {
         l.popped += 1;
     }
     hal::take_events();
+    // the soak buffer is freed when this function returns: its name must not stick to whatever the
+    // allocator puts at that address next (an indirect table, for instance)
+    let bp = buf.as_ptr() as usize;
+    hal::with(|h| h.bufnames.retain(|(p, _, _)| *p != bp));
     // keep the ledger small: forget dead shares' bounce memory
     hal::with(|h| {
         for s in h.shares.iter_mut() {
